@@ -215,6 +215,7 @@ func NewConfig(prop string, tier string, r *core.Rand) Config {
 	if prop != "C08" && prop != "C18" && prop != "C20" && !c.Noisy && r.Chance(0.15) {
 		c.Noisy, c.NoisyLeader = true, true
 		c.SideMean = 0.5
+		c.QueryMean = []float64{0, 0.3}[r.Intn(2)]
 		if c.Followers == 0 {
 			c.Followers = 1
 		}
@@ -226,6 +227,33 @@ func NewConfig(prop string, tier string, r *core.Rand) Config {
 		if prop == "C07" || prop == "C10" || prop == "C12" || prop == "C14" {
 			c.PRestartL = []float64{0, 0.05, 0.15, 0.3}[r.Intn(4)]
 		}
+	}
+	if prop != "C08" && prop != "C18" && prop != "C20" && (r.Chance(0.04) || (prop == "C04" && r.Chance(0.12))) {
+		// hundreds of distinct accounts: whatever is bounded, evicted or rehashed by the number of items
+		c.FreshHeavy = true
+		c.KindW["transfer"] = 12
+		c.TxMean = 10
+		c.Blocks = r.Range(20, 32)
+	}
+	if prop == "C04" && c.EVM && r.Chance(0.4) {
+		// read-only contract calls served by the block producer while it executes blocks
+		c.Noisy, c.NoisyLeader = true, true
+		c.SideMean, c.QueryMean = 0.1, 0.6
+		if c.Followers == 0 {
+			c.Followers = 1
+		}
+	}
+	if prop == "C06" && r.Chance(0.35) {
+		// blocks carrying txs altered after signing while the genuine versions reach the mempool check
+		c.PTamper = 0.15
+	}
+	if prop == "C08" && r.Chance(0.5) {
+		// enough validators for the staking limits to be in force, and a longer tail for the recovered nodes to
+		// follow (what a recovery rebuilt differently may show many blocks later)
+		c.NVals = r.Range(3, 5)
+		c.NActors = c.NVals + r.Range(3, 6)
+		c.KindW["unstake"], c.KindW["stake"], c.KindW["delegate"] = 3, 4, 3
+		c.Blocks = r.Range(14, 24)
 	}
 	if ((prop == "C05" || prop == "C13") && r.Chance(0.12)) || (prop != "C08" && prop != "C18" && prop != "C20" && r.Chance(0.02)) {
 		// amounts at the 256-bit boundary inside the reward path
@@ -303,6 +331,9 @@ func NewGenesis(c *Config, seed uint64, world int, r *core.Rand) GenesisSpec {
 	if c.NVals > 0 && (r.Chance(0.05) || (c.Property == "C13" && r.Chance(0.2))) {
 		whale = r.Intn(c.NVals) // one validator whose power x the default rate leaves 64 bits
 	}
+	if (c.Property == "C08" || c.Property == "C07") && c.NVals >= 3 && r.Chance(0.7) {
+		gov.MaxUpdatableStakeRatio = 33 // the per-block budget of changed power is in force
+	}
 	cliffPower := int64(0)
 	if c.RewardCliff > 0 {
 		whale = r.Intn(c.NVals)
@@ -354,6 +385,8 @@ type Generator struct {
 	absentNow             map[Addr]bool
 	absentHist            map[Addr]int64
 	curH                  int64
+	followUp              *Intent // to be placed right after the intent just drawn
+	govChangedPrev        int     // value of the gov.params-changed probe at the previous block
 	reopenedPrev          bool // some node was reopened from its stores at the previous block boundary
 }
 
@@ -383,6 +416,10 @@ func (g *Generator) actorIdx(a Addr) int {
 }
 
 func (g *Generator) target() string {
+	if g.c.FreshHeavy && g.r.Chance(0.75) {
+		g.freshCtr++
+		return fmt.Sprintf("x%d", g.freshCtr)
+	}
 	switch g.r.Intn(10) {
 	case 0:
 		g.freshCtr++
@@ -534,7 +571,10 @@ func (g *Generator) mutation(kind string) *Mutation {
 	}
 	f := fields[g.r.Intn(len(fields))]
 	if kind == "unstake" && g.r.Chance(0.5) {
-		return &Mutation{Field: "payload"}
+		return &Mutation{Field: "payload", How: []string{"", "", "extend"}[g.r.Intn(3)]}
+	}
+	if kind == "vote" && g.r.Chance(0.4) {
+		return &Mutation{Field: "payload", How: []string{"extend", "hash", ""}[g.r.Intn(3)]}
 	}
 	if kind == "withdraw" && g.r.Chance(0.4) {
 		return &Mutation{Field: "payload", How: []string{"w64", ""}[g.r.Intn(2)]}
@@ -544,7 +584,7 @@ func (g *Generator) mutation(kind string) *Mutation {
 	case "sig":
 		mu.How = []string{"flip", "trunc", "v", "malleate", "other", "empty", "reuse", "reuse"}[g.r.Intn(8)]
 	case "payload":
-		mu.How = []string{"", "msg", "opt", "apply", "period", "hash", "url", "w64"}[g.r.Intn(8)]
+		mu.How = []string{"", "msg", "opt", "apply", "period", "hash", "url", "w64", "extend"}[g.r.Intn(9)]
 	case "amount", "nonce":
 		mu.How = []string{"inc", "dec"}[g.r.Intn(2)]
 		if f == "amount" && g.r.Chance(0.3) {
@@ -588,7 +628,11 @@ func (g *Generator) intent(h int64) Intent {
 	if k == "stake" && g.r.Chance(0.12) {
 		it.Amt = "n:" + new(big.Int).Add(m.Gov.MinValidatorStake, new(big.Int).Mul(big.NewInt(int64(g.r.Range(-1, 1))), big1e18)).String()
 	}
-	if (k == "stake" || k == "delegate") && g.w.leader().State.Validators.Size() >= 3 && g.r.Chance(0.3) {
+	pProbe := 0.3
+	if g.c.Property == "C08" || g.c.Property == "C07" {
+		pProbe = 0.6
+	}
+	if (k == "stake" || k == "delegate") && g.w.leader().State.Validators.Size() >= 3 && g.r.Chance(pProbe) {
 		// probe the staking limits: choose the power so that the delegatee's share of the validators'
 		// total power lands right around one of the ratio limits (decisions there depend on parameters
 		// that every replica - also a restarted one - must hold identically)
@@ -605,10 +649,22 @@ func (g *Generator) intent(h int64) Intent {
 			r := rs[g.r.Intn(len(rs))] + int64(g.r.Range(-2, 2))
 			if r > 0 && r < 95 && base > 0 {
 				d := (r*base - 100*t) / (100 - r)
+				switch g.r.Intn(4) {
+				case 0:
+					d = r * base / 100 // the whole per-block budget of changed power
+				case 1:
+					d = r*base/200 + 1 // a bit more than half of it: two of these exceed it only together
+				}
 				d += int64(g.r.Range(-1, 1))
 				if d >= 1 && d < 1_000_000 {
 					it.Amt = fmt.Sprintf("pow:%d", d)
 					g.w.Probes.Hit("gen.limit-probe")
+					if g.r.Chance(0.5) {
+						// and a small change of the same delegatee right behind it (whatever the probe left in the
+						// per-block bookkeeping of the limiter meets it)
+						fu := Intent{Kind: "stake", Actor: g.richActor(), To: it.To, Amt: "pow:1"}
+						g.followUp = &fu
+					}
 				}
 			}
 		}
@@ -734,6 +790,9 @@ func (g *Generator) intent(h int64) Intent {
 			it.URL = "" // one field empty
 		case 4, 5:
 			it.Name = ""
+		case 6:
+			// within the limit counted in characters, beyond it counted in bytes
+			it.Name = strings.Repeat("\ud55c", []int{682, 1024, 2048}[g.r.Intn(3)])
 		}
 	case "deploy":
 		code, _ := g.program()
@@ -990,6 +1049,12 @@ func (g *Generator) NextBlock(h int64) BlockStep {
 			it = Intent{Kind: "transfer", Actor: g.richActor(), To: g.target(), Amt: g.amount()}
 		}
 		st.Txs = append(st.Txs, it)
+		if g.followUp != nil {
+			if !bootstrapQuiet {
+				st.Txs = append(st.Txs, *g.followUp)
+			}
+			g.followUp = nil
+		}
 	}
 	if g.reopenedPrev && !bootstrapQuiet {
 		st.Txs = append(st.Txs, g.reopenProbes()...)
@@ -1021,12 +1086,14 @@ func (g *Generator) NextBlock(h int64) BlockStep {
 						s := Side{Replica: ri, At: pt, Kind: "check"}
 						if npl > 0 && g.r.Chance(0.4) {
 							s.BlockTx = 1 + g.r.Intn(npl)
+							s.Twin = g.r.Chance(0.35)
 						} else if c.PGarbage > 0 && g.r.Chance(c.PGarbage) {
 							it := g.garbage(h)
 							s.Intent = &it
 						} else {
 							it := g.intent(h)
 							it.Repeat = 0
+							g.followUp = nil
 							s.Intent = &it
 						}
 						st.Sides = append(st.Sides, s)
@@ -1045,8 +1112,10 @@ func (g *Generator) NextBlock(h int64) BlockStep {
 	if c.PRestartL > 0 && g.r.Chance(c.PRestartL) {
 		st.Faults = append(st.Faults, Fault{Kind: "restart", Replica: 0, At: "end"})
 	}
+	govJustChanged := w.Probes.C["gov.params-changed"] > g.govChangedPrev
+	g.govChangedPrev = w.Probes.C["gov.params-changed"]
 	for ri := 1; ri < len(w.Reps); ri++ {
-		if g.r.Chance(c.PRestart) {
+		if g.r.Chance(c.PRestart) || (govJustChanged && c.PRestart > 0 && g.r.Chance(0.5)) {
 			st.Faults = append(st.Faults, Fault{Kind: "restart", Replica: ri, At: "end"})
 		} else if g.r.Chance(c.PLag) {
 			st.Faults = append(st.Faults, Fault{Kind: "lag", Replica: ri})
@@ -1054,7 +1123,9 @@ func (g *Generator) NextBlock(h int64) BlockStep {
 	}
 	// (block 1 included now and then: a crash before the first commit loses the genesis state held in memory,
 	// the engine must initialise the chain again)
-	if g.enumLeft > 0 && (h >= 4 || g.r.Chance(0.15)) && (nt > 0 || g.r.Chance(0.3)) && g.r.Chance(0.5) {
+	// the enumerated blocks are spread over the whole history (a late crash meets more accumulated state)
+	pEnum := 2.2 * float64(g.enumLeft) / float64(int64(c.Blocks)-h+1)
+	if g.enumLeft > 0 && (h >= 4 || g.r.Chance(0.15)) && (nt > 0 || g.r.Chance(0.3)) && g.r.Chance(pEnum) {
 		g.enumLeft--
 		replayPts := []string{"bb", "eb", "commit.pre", "commit.post", "cw:13"}
 		if npl > 0 {
@@ -1092,6 +1163,9 @@ var queryPaths = []string{"account", "account", "delegatee", "stakes", "stakes/t
 func (g *Generator) query(ri int, pt string, h int64) Side {
 	s := Side{Replica: ri, At: pt, Kind: "query"}
 	s.Path = queryPaths[g.r.Intn(len(queryPaths))]
+	if g.c.EVM && len(g.w.M.Contracts) > 0 && g.r.Chance(0.25) {
+		s.Path = "vm_call"
+	}
 	switch g.r.Intn(6) {
 	case 0:
 		s.QHeight = 0
@@ -1182,6 +1256,9 @@ func (g *Generator) reopenProbes() []Intent {
 			for _, ratio := range []int64{m.Gov.MaxIndividualStakeRatio, m.Gov.MaxUpdatableStakeRatio} {
 				if ratio > 0 && ratio < 95 && base > 0 {
 					if p := (ratio*base-100*t)/(100-ratio) + int64(g.r.Range(-1, 1)); p >= 1 && p < 1_000_000_000 {
+						its = append(its, Intent{Kind: "stake", Actor: from, To: to, Amt: fmt.Sprintf("pow:%d", p)})
+					}
+					if p := ratio*base/100 + int64(g.r.Range(-1, 1)); p >= 1 && p < 1_000_000_000 && g.r.Chance(0.5) {
 						its = append(its, Intent{Kind: "stake", Actor: from, To: to, Amt: fmt.Sprintf("pow:%d", p)})
 					}
 				}
